@@ -1,5 +1,6 @@
 """Apply a patch to /repo, run the given property checks, and undo the patch (always).
 python3 nv/trypatch.py <patch.diff> <C05> [<C06> ...]   — prints one line per property."""
+import os
 import subprocess
 import sys
 
@@ -9,6 +10,7 @@ subprocess.check_call(['git', '-C', '/repo', 'apply', '--whitespace=nowarn', pat
 try:
     for p in props:
         r = subprocess.run([sys.executable, '/verif/nv/check.py', p], stdout=subprocess.PIPE,
+                           env=dict(os.environ, NV_EVIDENCE='/tmp/nv-try-evidence'),
                            stderr=subprocess.STDOUT, text=True)
         lines = [l for l in r.stdout.splitlines() if not l.startswith(('VIOLATION', 'KNOWN-FINDING', 'OK ', '    witness'))]
         print('%s rc=%d %s' % (p, r.returncode, ' | '.join(lines[:4])[:700]))
